@@ -58,6 +58,15 @@ def run(ctx):
             members.append(([1] * total, 1, 0))
             members.append(([1] * total, 2, 10))
         groups.append((gi, o, inp, members, None))
+    # consecutive blocks stored differently (raw, compressed, zeros in each rotation): the sequential Writer reuses one block
+    # object, the concurrent one makes a new one per block - the frames must not differ
+    for seed in (0, 1, 2):
+        gi = len(groups)
+        o = {"code": 4, "bcs": seed % 2 == 0, "ccs": True, "level": [0, 3, 1][seed], "legacy": False, "handler": False}
+        total = 4 * B + 11
+        inp = {"family": "blockmix", "len": total, "seed": seed, "p1": B}
+        members = [([total], 1, 0)] + [([total], conc, p) for conc, p in ((2, 0), (4, 40), (16, 10))] + [([B, B + 5, total - 2 * B - 5], 1, 0), ([B - 1, total - B + 1], 4, 10)]
+        groups.append((gi, o, inp, members, None))
     # fixed call sequences WITH Flush calls (an explicit block boundary): identical for every concurrency level and schedule
     for gi in range(len(groups), len(groups) + (8 if q else 80)):
         o = {"code": 4, "bcs": gi % 2 == 0, "ccs": True, "level": 0, "legacy": False, "handler": False}
